@@ -31,7 +31,10 @@ def run(rep, tier):
     rep.rule("C13.R5", "K7: interruption_point throws iff enabled && requested (clearing the request); interrupt refuses when disabled")
     rep.rule("C13.R6", "K1: thread::id_ accessed only with mtx_ held")
 
-    F = facts(rep, lib("threading", "src/thread.cpp"), [r"^pika::thread::", r"^pika::run_thread_exit_callbacks$", r"^pika::resume_thread$"], [r"^pika::thread$"])
+    # the private one-line helpers joinable_locked / detach_locked are read in place (flattened): the rules are about the
+    # public members and hold whatever those helpers are called, or whether they exist
+    F = facts(rep, lib("threading", "src/thread.cpp"), [r"^pika::thread::", r"^pika::run_thread_exit_callbacks$", r"^pika::resume_thread$"], [r"^pika::thread$"],
+              flatten=[r"^pika::thread::(detach_locked|joinable_locked)$"])
     G = facts(rep, lib("threading_base", "src/thread_data.cpp"), [r"^pika::threads::detail::thread_data::"])
     J = facts(rep, driver("c13_thread.cpp"), [r"^pika::jthread::", r"^pika::thread::(joinable|joinable_locked|detach|detach_locked|native_handle)$"])
 
@@ -74,17 +77,20 @@ def run(rep, tier):
             rep.ok("C13.R1", jn, "the registered callback resumes the joiner (resume_thread bound to the caller's id) on the joined thread")
         else:
             rep.bad("C13.R1", jn, jn.loc, "callback-target", "the exit callback must be registered on the joined thread and resume the joining thread")
-    det = lambda e: e.get("k") == "call" and callee_short(e) == "detach_locked"
+    # the handle is invalidated: this->id_ is assigned the invalid id
+    det = lambda e: (e.get("k") == "call" and e.get("op") == "=" and P(e.get("recv") or {}) == "this->id_" and "invalid_thread_id" in T(e)) or \
+        (e.get("k") == "write" and P(e["lhs"]) == "this->id_" and "invalid_thread_id" in T(e.get("rhs"))) or \
+        (e.get("k") == "call" and callee_short(e) == "detach_locked")
     cf = CountFlow(jn, lambda ev, pos: 1 if det(ev) else 0)
     if cf.exits == frozenset([1]):
-        rep.ok("C13.R1", jn, "detach_locked() exactly once on every normal exit")
+        rep.ok("C13.R1", jn, "the handle is invalidated (id_ = invalid) exactly once on every normal exit")
     else:
         rep.bad("C13.R1", jn, jn.loc, "detach", "join does not invalidate the handle exactly once on every normal path (counts %s): the handle stays joinable" % sorted(cf.exits))
     # preconditions: not joinable / self join end in noreturn throws before the callback is registered
     addcb = [(b, i) for b, i, e in jn.all_events() if e.get("k") == "call" and callee_short(e) == "add_thread_exit_callback"]
     if addcb:
         fb = ff.before.get(addcb[0]) or frozenset()
-        joinable = any(t and "joinable_locked()" in a for a, t in fb)
+        joinable = any((t and "joinable_locked()" in a) or ((not t) and "invalid_thread_id" in a and "this->id_" in a and "==" in a) for a, t in fb)
         # "the caller is not the joined thread": a failed comparison of id_ with a local that holds get_self_id()
         def is_self_cmp(a):
             m = re.match(r"^(?:(?:\w+\{)?(\w+)\}? == this->id_|this->id_ == (?:\w+\{)?(\w+)\}?)$", a)
